@@ -636,7 +636,66 @@ layout BestChecksums
 property C07: NewParagraphReader, lemma idx_least, lemma idx_is, lemma idx_none, lemma idxOf_prefix, (*ParagraphReader).Next, (*ParagraphReader).All
 property C09: lemma idxOf_prefix, lemma idxOf_found, (*Paragraph).Set, (*Paragraph).Update
 
-property C10: (*DSC).HasArchAll, (*DSC).Maintainers, (*SourceParagraph).Maintainers, (*DSC).AbsFiles, (*Changes).AbsFiles, (*DSC).DebianSource, (*BinaryIndex).SourcePackage, (*BestChecksums).Checksums, (*FileHash).unmarshalControl, (*MD5FileHash).UnmarshalControl, (*SHA1FileHash).UnmarshalControl, (*SHA256FileHash).UnmarshalControl, (*SHA512FileHash).UnmarshalControl, (*FileListChangesFileHash).UnmarshalControl, layout DSC, layout Changes, layout SourceParagraph, layout BinaryParagraph, layout BinaryIndex, layout SourceIndex, layout BestChecksums
+// ---------- C10: dependency fields parsed on demand ----------
+// Each accessor hands the text of its own field - the whole of it, unchanged - to the dependency parser, exactly once,
+// and returns what the parser made of it (nothing on a parse error). callarg/callres speak about the contracted calls
+// made on the path, also through helpers that are inlined.
+func (*Paragraph).getDependencyField
+  requires para != nil
+  ensures has(para.Values, field) ==> ncalls("dependency.Parse") == 1 && callarg("dependency.Parse", 1, 0) == para.Values[field] && result0 == callres("dependency.Parse", 1, 0) && result1 == callres("dependency.Parse", 1, 1)
+  ensures !has(para.Values, field) ==> result0 == nil && result1 != nil
+func (*BinaryIndex).GetConflicts
+  requires index != nil
+  ensures ncalls("dependency.Parse") == 1 && callarg("dependency.Parse", 1, 0) == index.Paragraph.Values["Conflicts"]
+  ensures callres("dependency.Parse", 1, 1) == nil ==> result.Relations == callres("dependency.Parse", 1, 0).Relations
+  ensures callres("dependency.Parse", 1, 1) != nil ==> len(result.Relations) == 0
+func (*BinaryIndex).GetDepends
+  requires index != nil
+  ensures ncalls("dependency.Parse") == 1 && callarg("dependency.Parse", 1, 0) == index.Paragraph.Values["Depends"]
+  ensures callres("dependency.Parse", 1, 1) == nil ==> result.Relations == callres("dependency.Parse", 1, 0).Relations
+  ensures callres("dependency.Parse", 1, 1) != nil ==> len(result.Relations) == 0
+func (*BinaryIndex).GetSuggests
+  requires index != nil
+  ensures ncalls("dependency.Parse") == 1 && callarg("dependency.Parse", 1, 0) == index.Paragraph.Values["Suggests"]
+  ensures callres("dependency.Parse", 1, 1) == nil ==> result.Relations == callres("dependency.Parse", 1, 0).Relations
+  ensures callres("dependency.Parse", 1, 1) != nil ==> len(result.Relations) == 0
+func (*BinaryIndex).GetBreaks
+  requires index != nil
+  ensures ncalls("dependency.Parse") == 1 && callarg("dependency.Parse", 1, 0) == index.Paragraph.Values["Breaks"]
+  ensures callres("dependency.Parse", 1, 1) == nil ==> result.Relations == callres("dependency.Parse", 1, 0).Relations
+  ensures callres("dependency.Parse", 1, 1) != nil ==> len(result.Relations) == 0
+func (*BinaryIndex).GetReplaces
+  requires index != nil
+  ensures ncalls("dependency.Parse") == 1 && callarg("dependency.Parse", 1, 0) == index.Paragraph.Values["Replaces"]
+  ensures callres("dependency.Parse", 1, 1) == nil ==> result.Relations == callres("dependency.Parse", 1, 0).Relations
+  ensures callres("dependency.Parse", 1, 1) != nil ==> len(result.Relations) == 0
+func (*BinaryIndex).GetPreDepends
+  requires index != nil
+  ensures ncalls("dependency.Parse") == 1 && callarg("dependency.Parse", 1, 0) == index.Paragraph.Values["Pre-Depends"]
+  ensures callres("dependency.Parse", 1, 1) == nil ==> result.Relations == callres("dependency.Parse", 1, 0).Relations
+  ensures callres("dependency.Parse", 1, 1) != nil ==> len(result.Relations) == 0
+func (*BinaryIndex).GetBuiltUsing
+  requires index != nil
+  ensures ncalls("dependency.Parse") == 1 && callarg("dependency.Parse", 1, 0) == index.Paragraph.Values["Built-Using"]
+  ensures callres("dependency.Parse", 1, 1) == nil ==> result.Relations == callres("dependency.Parse", 1, 0).Relations
+  ensures callres("dependency.Parse", 1, 1) != nil ==> len(result.Relations) == 0
+func (*SourceIndex).GetBuildDepends
+  requires index != nil
+  ensures ncalls("dependency.Parse") == 1 && callarg("dependency.Parse", 1, 0) == index.Paragraph.Values["Build-Depends"]
+  ensures callres("dependency.Parse", 1, 1) == nil ==> result.Relations == callres("dependency.Parse", 1, 0).Relations
+  ensures callres("dependency.Parse", 1, 1) != nil ==> len(result.Relations) == 0
+func (*SourceIndex).GetBuildDependsArch
+  requires index != nil
+  ensures ncalls("dependency.Parse") == 1 && callarg("dependency.Parse", 1, 0) == index.Paragraph.Values["Build-Depends-Arch"]
+  ensures callres("dependency.Parse", 1, 1) == nil ==> result.Relations == callres("dependency.Parse", 1, 0).Relations
+  ensures callres("dependency.Parse", 1, 1) != nil ==> len(result.Relations) == 0
+func (*SourceIndex).GetBuildDependsIndep
+  requires index != nil
+  ensures ncalls("dependency.Parse") == 1 && callarg("dependency.Parse", 1, 0) == index.Paragraph.Values["Build-Depends-Indep"]
+  ensures callres("dependency.Parse", 1, 1) == nil ==> result.Relations == callres("dependency.Parse", 1, 0).Relations
+  ensures callres("dependency.Parse", 1, 1) != nil ==> len(result.Relations) == 0
+
+property C10: (*Paragraph).getDependencyField, (*BinaryIndex).GetConflicts, (*BinaryIndex).GetDepends, (*BinaryIndex).GetSuggests, (*BinaryIndex).GetBreaks, (*BinaryIndex).GetReplaces, (*BinaryIndex).GetPreDepends, (*BinaryIndex).GetBuiltUsing, (*SourceIndex).GetBuildDepends, (*SourceIndex).GetBuildDependsArch, (*SourceIndex).GetBuildDependsIndep, (*DSC).HasArchAll, (*DSC).Maintainers, (*SourceParagraph).Maintainers, (*DSC).AbsFiles, (*Changes).AbsFiles, (*DSC).DebianSource, (*BinaryIndex).SourcePackage, (*BestChecksums).Checksums, (*FileHash).unmarshalControl, (*MD5FileHash).UnmarshalControl, (*SHA1FileHash).UnmarshalControl, (*SHA256FileHash).UnmarshalControl, (*SHA512FileHash).UnmarshalControl, (*FileListChangesFileHash).UnmarshalControl, layout DSC, layout Changes, layout SourceParagraph, layout BinaryParagraph, layout BinaryIndex, layout SourceIndex, layout BestChecksums
 
 property C20: lemma cat_cancel, (*DSC).Copy, (*DSC).Move, (*DSC).Remove, (*Changes).Copy, (*Changes).Move, (*Changes).Remove
 
